@@ -29,6 +29,9 @@ LAYOUTS = ['alt-first-use', 'top-sticky', 'home', 'alt-existing', 'top-sticky-an
 LAYOUTS_D = LAYOUTS + ['fallback-cross-volume']
 
 
+FORCE = [False]  # set by the -f obligations around a case (the option must not turn a failure into a silent success)
+
+
 def scenario(kind, layout):
     l = LAYOUTS_D[layout]
     nodes = [W.d('/h'), W.d('/v/d'), W.d('/h/w'), W.f('/v/keep', 'KEEP', 0o644, 800)] + K.sentinels('/v/out')
@@ -52,7 +55,7 @@ def scenario(kind, layout):
         args = ['--home-fallback']
         e['TRASH_ENABLE_HOME_FALLBACK'] = '1'
     world = W.W(mounts=K.MOUNTS, cwd=cwd, nodes=nodes)
-    return world, C('put', args + ['--', 'x'], e, cwd=cwd), src
+    return world, C('put', args + (['-f'] if FORCE[0] else []) + ['--', 'x'], e, cwd=cwd), src
 
 
 def _run(kind, layout, faults, persistent, hook=None):
@@ -75,6 +78,9 @@ def judge(kind, layout, faults, persistent, tag, hook=None):
         return rt.fail('C17:nonterminating:%s:%s' % (tag, '+'.join(names)),
                        'trash-put still running after %d system calls with faults %r (last ops %r)' % (m.nops, faults, m.oplog[-4:]))
     if not hook.injected:
+        return rt.ok()
+    if FORCE[0] and all(n in ('lstat', 'stat') for (_, n, _) in hook.injected):
+        # outside the claim: with -f an argument whose lstat fails counts as nonexistent (os.path.lexists), silently
         return rt.ok()
     inj = '+'.join('%s=%s' % (n, errno.errorcode.get(e, e)) for (_, n, e) in hook.injected[:2])
     flabel = tag if tag.startswith('one-cause') else 'fault:' + '+'.join(n for (_, n, _) in hook.injected[:2])
@@ -103,6 +109,14 @@ def _single(kind, layout, k, e):
             return rt.fail('C17:bound-too-small', 'an unfaulted run makes %d system calls; fault indices only range over 0..71' % run_length(kind, layout))
         rt.begin((K.KINDS[kind], LAYOUTS[layout], k, errno.errorcode[ERRNOS[e]]))
         return judge(kind, layout, {k: ERRNOS[e]}, False, 'single')
+
+
+def _single_f(kind, layout, k, e):
+    FORCE[0] = True
+    try:
+        return _single(kind, layout, k, e)
+    finally:
+        FORCE[0] = False
 
 
 def _persistent(kind, layout, k, e):
@@ -185,6 +199,15 @@ def w_single(kind: int, layout: int, k: int, e: int) -> str:
     return _single(rt.sel(kind, 6), rt.sel(layout, 6), rt.sel(k, 72), rt.sel(e, 10))
 
 
+def w_single_f(kind: int, layout: int, k: int, e: int) -> str:
+    """
+    pre: PARTITION is None or (kind == PARTITION[0] and layout == PARTITION[1])
+    pre: 0 <= kind < 6 and 0 <= layout < 6 and 0 <= k < 72 and 0 <= e < 10
+    post: _ == ''
+    """
+    return _single_f(rt.sel(kind, 6), rt.sel(layout, 6), rt.sel(k, 72), rt.sel(e, 10))
+
+
 def w_persistent(kind: int, layout: int, k: int, e: int) -> str:
     """
     pre: PARTITION is None or (kind == PARTITION[0] and layout == PARTITION[1])
@@ -213,6 +236,8 @@ def obligations(tier):
         CH('W_single_fault', MOD, 'w_single', timeout=1800, partitions=parts, engine='W', regime='selector', encodes=enc,
            stubs=K.STUBS, bounds='fault index k in 0..71 (runs are shorter: indices beyond the run inject nothing) x 10 errnos x '
                                  '%d kinds x 6 candidate layouts' % len(set(p[0] for p in parts))),
+        CH('W_single_fault_with_force_option', MOD, 'w_single_f', timeout=1800, partitions=[(k, l) for k in (0, 2) for l in range(6)], engine='W', regime='selector', encodes=enc,
+           stubs=K.STUBS, bounds='trash-put -f: fault index k in 0..71 x 10 errnos (incl. ENOENT) x 2 kinds x 6 layouts'),
         CH('W_persistent_fault', MOD, 'w_persistent', timeout=1800, partitions=parts, engine='W', regime='selector', encodes=enc,
            stubs=K.STUBS, bounds='same space; after the first injection every later call of the same kind in the same directory fails too'),
     ]
